@@ -1,6 +1,7 @@
 //! C12 — equality checkers never give a wrong definite answer; the tensor-based checker is exact.
 
 use crate::conv::*;
+use qzv_ref::ring::Ring;
 use crate::gen::*;
 use crate::report::*;
 use crate::sweep_range;
@@ -66,6 +67,27 @@ pub fn judge_pair(st: &mut Stats, c1: &Circuit, c2: &Circuit, relation: &'static
         Ok(d) if d == same_dim => {}
         Ok(d) => st.violation(Violation { sig: "equal_circuit_dim|wrong".into(), detail: format!("answered {} for arities {:?} / {:?}", d, (i1, o1), (i2, o2)), witness: wit("equal_circuit_dim") }),
         Err(p) => st.violation(Violation { sig: "equal_circuit_dim|panic".into(), detail: p, witness: wit("equal_circuit_dim") }),
+    }
+    if !exact_track && same_dim {
+        // tolerance track: the tensor checker cannot be asked for exact equality of floats, but it must not call two
+        // maps identical that clearly differ (largest entry difference above 1e-6)
+        let cv = |t: &Tensor| -> Vec<num::complex::Complex64> {
+            match t {
+                Tensor::Exact(v) => v.iter().map(|x| x.to_c64()).collect(),
+                Tensor::Float(v, _) => v.iter().map(|x| x.0).collect(),
+                Tensor::Bad(_) => vec![],
+            }
+        };
+        let (a, b) = (cv(&t1), cv(&t2));
+        if !a.is_empty() && a.len() == b.len() {
+            let far = a.iter().zip(&b).map(|(x, y)| (x - y).norm()).fold(0.0, f64::max) > 1e-6;
+            if far {
+                st.inc("evaluations");
+                if let Ok(true) = guarded(|| equal_circuit_tensor(c1, c2)) {
+                    st.violation(Violation { sig: format!("equal_circuit_tensor|wrong-true-on-clearly-different-maps|{}", relation), detail: "answered true, the reference tensors differ by more than 1e-6".into(), witness: wit("equal_circuit_tensor") });
+                }
+            }
+        }
     }
     if exact_track {
         st.inc("evaluations");
@@ -194,7 +216,7 @@ pub fn run(rep: &mut Report) {
     // all ordered pairs of a small family
     let mut a2 = alpha_ct(2);
     a2.push(Gate::new(SWAP, vec![0, 1]));
-    for (name, q, alpha, d) in if quick { vec![("pairs K(2,2,A_ct+swap)", 2usize, a2.clone(), 2usize), ("pairs K(1,3,A_ct)", 1, alpha_ct(1), 3)] } else { vec![("pairs K(2,2,A_ct+swap)", 2, a2.clone(), 2), ("pairs K(1,3,A_ct)", 1, alpha_ct(1), 3), ("pairs K(2,2,A_full)", 2, alpha_full(2), 2), ("pairs K(3,1,A_full)", 3, alpha_full(3), 1)] } {
+    for (name, q, alpha, d) in if quick { vec![("pairs K(2,2,A_ct+swap)", 2usize, a2.clone(), 2usize), ("pairs K(1,3,A_ct)", 1, alpha_ct(1), 3), ("pairs K(1,2,A_tol)", 1, alpha_tol(1), 2)] } else { vec![("pairs K(2,2,A_ct+swap)", 2, a2.clone(), 2), ("pairs K(1,3,A_ct)", 1, alpha_ct(1), 3), ("pairs K(2,2,A_full)", 2, alpha_full(2), 2), ("pairs K(3,1,A_full)", 3, alpha_full(3), 1), ("pairs K(1,3,A_tol)", 1, alpha_tol(1), 3)] } {
         let t0 = Instant::now();
         let n = circuit_count(alpha.len(), d);
         let stats = sweep_range(n * n, |st, idx| {
